@@ -5,20 +5,21 @@
 (* accepting behaviour is explored (MayReject = FALSE, random simulation) the other alternative is exported  *)
 (* from the state in which the choice exists (tag ALT; simulation evaluates invariants on every successor,   *)
 (* followed or not: an ALT record counts only for a program that also reached a terminal state).             *)
-(* val = the value of the use instruction's path before the current directory is substituted (its comps are  *)
-(* the relative path the harness puts under every root).                                                     *)
+(* Per use instruction: resolved = the location its path resolved to, cwdAtUse = the directory current then, *)
+(* rc = the path below its root before the current directory is substituted (the relative path the harness   *)
+(* puts under every root).                                                                                   *)
 EXTENDS Paths, Json
-NoVal == [root |-> "-", phys |-> "-", comps |-> <<>>]
-Rec(o, res, v, atUse) ==
+Rec(o, us) ==
    [role |-> role, phase |-> phase, depth |-> depth, cdpos |-> cdpos, cdform |-> cdform,
     prog |-> [j \in 1..Len(prog) |->
                 [op |-> prog[j].op, role |-> prog[j].role, rel |-> prog[j].x.rel,
                  sym |-> prog[j].x.sym, sfx |-> prog[j].x.sfx, parts |-> Parts(prog[j].x.sfx)]],
-    outcome |-> o, resolved |-> res, cwdAtUse |-> atUse, val |-> v,
+    outcome |-> o, uses |-> us,
     bad |-> \E j \in 1..Len(prog) : Bad(prog[j].x), d4 |-> D4]
+UsesRec == [k \in 1..Len(uses) |->
+              [resolved |-> uses[k].loc, cwdAtUse |-> uses[k].at,
+               rc |-> Eval(Use.x, symtab, Default(role)).comps \o Leaf(k)]]
 Export ==
-  /\ Done => PrintT(<<"CASE", ToJson(Rec(outcome, resolved,
-                                         IF outcome = "PASS" THEN Eval(Use.x, symtab, Default(role)) ELSE NoVal,
-                                         cwdAtUse))>>)
-  /\ (~MayReject /\ MayRejectOutcome # "-") => PrintT(<<"ALT", ToJson(Rec(MayRejectOutcome, NoLoc, NoVal, NoLoc))>>)
+  /\ Done => PrintT(<<"CASE", ToJson(Rec(outcome, IF outcome = "PASS" THEN UsesRec ELSE <<>>))>>)
+  /\ (~MayReject /\ MayRejectOutcome # "-") => PrintT(<<"ALT", ToJson(Rec(MayRejectOutcome, <<>>))>>)
 =============================================================================
